@@ -34,6 +34,16 @@ def cases(tier, r):
             # other representations of a collection: a one-shot iterable, a set
             ps.append({"x": "mask", "via": "A", "tip": {"k": "coll", "x": [[r.choice(["int", "tip"]), n] for n in sh], "present": "iter"}})
             ps.append({"x": "mask", "via": "D", "tip": {"k": "coll", "x": [["int", n] for n in sh], "present": "set"}})
+    # a complete selection (all eight tips, in some order, possibly with repetitions) followed or interrupted by an invalid member
+    for b in BAD + [["int", -1], ["int", 255]]:
+        full = [[r.choice(["int", "tip"]), n] for n in r.sample(range(1, 9), 8)]
+        ps.append({"x": "mask", "via": "A", "tip": {"k": "coll", "x": full + [b]}})
+        ps.append({"x": "mask", "via": "D", "tip": {"k": "coll", "x": full + [full[2], b, full[0]], "present": "tuple"}})
+        ps.append({"x": "mask", "via": "A", "tip": {"k": "coll", "x": full[:4] + [b] + full[4:]}})
+    for k in (8, 9, 12, 16):
+        seq = [[r.choice(["int", "tip"]), r.randint(1, 8)] for _ in range(k)]
+        ps.append({"x": "mask", "via": "D", "tip": {"k": "coll", "x": seq}})
+        ps.append({"x": "mask", "via": "A", "tip": {"k": "coll", "x": [[r.choice(["int", "tip"]), n] for n in range(1, 9)] * 2}})
     # invalid members inside collections
     for b in BAD:
         for g in (GOOD[0], GOOD[12]):
